@@ -1,7 +1,7 @@
 (* Model/C02Run.v - case type and checker evaluated on harness-generated cases (C02).
    One case = one exchange of the REAL client (req.C().R()...) with a scripted peer; the
    observation is what the caller saw through the public API. *)
-From ReqV Require Export Lib.Bytes Lib.ByteLit Model.H1Resp Model.RespAPI Model.H1Client.
+From ReqV Require Export Lib.Bytes Lib.ByteLit Model.H1Resp Model.RespAPI Model.H1Client Model.MuxResp.
 
 (* Go maps are unordered: compare as multimaps key by key *)
 Definition hmap_eqb (a b : hmap) : bool :=
@@ -104,7 +104,30 @@ Inductive c02_case :=
          (m : mode) (pat : list N)
          (o_noresp : bool)          (* the call failed without a response *)
          (o_code : Z) (o_status : bytes) (o_header : hmap) (o_cl : Z) (o_trailer : hmap)
-         (o : obs_api).
+         (o : obs_api)
+(* HTTP/2: the HEADERS frames before the data (status, fields, END_STREAM), the DATA frames as
+   (offset, length) slices of the body with padding length and END_STREAM, the trailer fields *)
+| H2Case (is_head : bool) (body : bspec) (heads : list (bytes * list mfield * bool))
+         (frames : list (N * N * N * bool)) (trailers : option (list mfield))
+         (has_body : bool) (m : mode) (pat : list N)
+         (o_noresp : bool) (o_code : Z) (o_header : hmap) (o_cl : Z) (o_trailer : hmap) (o : obs_api)
+(* HTTP/3: HEADERS frames, DATA frames as slices of the body, trailer fields *)
+| H3Case (is_head : bool) (body : bspec) (heads : list (bytes * list mfield))
+         (parts : list (N * N)) (trailers : option (list mfield))
+         (has_body : bool) (m : mode) (pat : list N)
+         (o_noresp : bool) (o_code : Z) (o_header : hmap) (o_cl : Z) (o_trailer : hmap) (o : obs_api).
+
+Definition slice (body : bytes) (off len : N) : bytes :=
+  firstn (N.to_nat len) (skipn (N.to_nat off) body).
+
+Definition mux_matches (ref : bytes) (d : option mux_delivery)
+    (o_noresp : bool) (o_code : Z) (o_header : hmap) (o_cl : Z) (o_trailer : hmap) (o : obs_api) : bool :=
+  match d with
+  | None => o_noresp
+  | Some d =>
+      negb o_noresp && (m_code d =? o_code)%Z && hmap_eqb (m_header d) o_header &&
+      (m_cl d =? o_cl)%Z && hmap_eqb (m_trailer d) o_trailer && api_matches ref (m_api d) o
+  end.
 
 Definition c02_check (c : c02_case) : bool :=
   match c with
@@ -123,4 +146,19 @@ Definition c02_check (c : c02_case) : bool :=
           hmap_eqb (b_trailer (d_body d)) o_trailer &&
           api_matches ref (d_api d) o
       end
+  | H2Case is_head body heads frames trailers has_body m pat o_noresp o_code o_header o_cl o_trailer o =>
+      let bd := expand_body body in
+      let ref := if has_body then bd else [] in
+      let sizes := cycle_sizes (S (S (length bd))) pat in
+      let hs := map (fun x => {| hh_status := fst (fst x); hh_fields := snd (fst x); hh_end := snd x |}) heads in
+      let fr := map (fun x => match x with (off, len, pad, e) =>
+                                {| fd_data := slice bd off len; fd_pad := pad; fd_end := e |} end) frames in
+      mux_matches ref (h2_exchange is_head hs fr trailers m sizes) o_noresp o_code o_header o_cl o_trailer o
+  | H3Case is_head body heads parts trailers has_body m pat o_noresp o_code o_header o_cl o_trailer o =>
+      let bd := expand_body body in
+      let ref := if has_body then bd else [] in
+      let sizes := cycle_sizes (S (S (length bd))) pat in
+      let hs := map (fun x => {| h3_status := fst x; h3_flds := snd x |}) heads in
+      let ps := map (fun x => slice bd (fst x) (snd x)) parts in
+      mux_matches ref (h3_exchange is_head hs ps trailers m sizes) o_noresp o_code o_header o_cl o_trailer o
   end.
